@@ -1,14 +1,14 @@
 import os
 ID = 'C19'
 LEVEL = 'other'
-CONTRACT_MODULES = ['contracts.time_utils']
-CONE = ['csep.utils.time_utils.datetime_to_utc_epoch']
+CONTRACT_MODULES = ['contracts.time_utils', 'contracts.readers']
+CONE = ['csep.utils.time_utils.datetime_to_utc_epoch', 'csep.utils.readers.ingv_horus']
 ORACLE_MODULES = ['rt.oracles_io']
 BOUNDED = os.path.exists(os.path.join(os.path.dirname(__file__), '..', 'rt', 'bounded_C19.py'))
 FLOAT_MODEL = 'E for the time conversions (see C15); concrete executions otherwise'
 TRUSTED = ['the oracles in rt/ compute the expected outcome from the property statement, independently of the code under test', 'pyvc engine, z3 5.1']
-ASSUMPTIONS = ['the functions of this property are outside the deductive reach of the engine in this round (generators, file readers, recursion over tiles, whole-test pipelines): every clause is decided by the bounded run-time contract only; see DESIGN.md section 10']
-EXPLANATION = 'generated files in the five formats, one event per record, file order, encoded values, UTC conversion incl. seconds = 60 and offsets: run-time contract; the datetime -> epoch step is the proved C15 contract'
+ASSUMPTIONS = ['proved: the INGV HORUS reader over an abstract table of any number of records (numpy.genfromtxt assumed to deliver the written numbers): one event per record in file order, encoded latitude / longitude / depth / magnitude, origin time = midnight of the date + hour, minute and WHOLE seconds, roll-over of seconds = 60, minute = 60, hour = 24 without exception (datetime constructor with symbolic civil fields, day number uninterpreted); the dropped fraction of the second is the open known finding; the datetime -> epoch step is the proved C15 contract', 'the other four formats (CSEP CSV, ZMAP, JMA CSV, NDK: string slicing / strptime / offsets) are decided by the bounded run-time contract only']
+EXPLANATION = 'ingv_horus under contract (loop invariant over the records, in-place roll-over arithmetic on the record view); generated files in the five formats, one event per record, file order, encoded values, UTC conversion incl. seconds = 60 and offsets: run-time contract; the datetime -> epoch step is the proved C15 contract'
 TECHNIQUE = 'bounded stand-in: run-time form of the contracts on the real code (small-scope enumeration + directed cases), labelled bounded, nothing counted as proved; deductive part: contracts of the shared callees'
-LEVEL_TEXT = 'other: the shared callees are proved (see cone); the property-level clauses are decided by the bounded run-time contract only'
+LEVEL_TEXT = 'other: the HORUS reader and the time conversion are proved; the other formats are decided by the bounded run-time contract only'
 LEVEL_NOTE = 'bounded only; oracle independence trusted'
